@@ -29,6 +29,36 @@ InSeq(s, x) == \E i \in 1..Len(s) : s[i] = x
 Allowed(c, warned, graphwarn, o) ==
    \/ InSeq(c.gs, o.name) \/ o.stop \/ o.name \in {"Allocate", "Deallocate"}
    \/ InSeq(warned, o.name) \/ (c.graph /\ graphwarn)
+\* ---------------------------------------------------------------------------------------------------------------
+\* devices.preprocess.decompose: the device-side entry point of the same transform (stopping condition = "the device
+\* accepts the operator").  Shape of one call
+\*   d = [graph  : graph-based system enabled (target_gates given),
+\*        skip   : skip_initial_state_prep,
+\*        lead   : "none" | "BasisState" | "StatePrep"  (class of the first operator: a StatePrepBase or not),
+\*        leadok : the stopping condition accepts the leading state preparation,
+\*        rest   : "empty" | "accepted" | "mixed"  (the other operators: none / all accepted / some rejected)]
+\* Documented: operators are decomposed until the stopping condition accepts them; "if skip_initial_state_prep the first
+\* operator will not be decomposed if it inherits from StatePrepBase"; failure raises `error` (default DeviceError).
+DevErrors == DecompErrors \cup {"DeviceError"}
+DevLeads == {"none", "BasisState", "StatePrep"}
+DevRests == {"empty", "accepted", "mixed"}
+\* operator i of the result is acceptable: accepted by the stopping condition, the exempted leading state preparation, or
+\* (graph system only, as in the transform) left in place under the documented "not assumed to have a decomposition" warning
+DevAllowed(d, warned, i, o) == \/ o.stop \/ (i = 1 /\ d.skip /\ o.prep) \/ o.name \in {"Allocate", "Deallocate"}
+                               \/ (d.graph /\ InSeq(warned, o.name))
+\* the leading state preparation stays in place / something has to be decomposed (else: raise)
+DevPrepKept(d) == d.lead # "none" /\ (d.skip \/ d.leadok)
+DevMustChange(d) == (d.lead # "none" /\ ~d.skip /\ ~d.leadok) \/ d.rest = "mixed"
+\* the recorded input ins = <<[name, stop, prep]>> has the shape d claims
+DevShapeOK(d, ins) ==
+   LET hasLead == Len(ins) >= 1 /\ ins[1].prep
+       from == IF hasLead THEN 2 ELSE 1 IN
+   /\ (d.lead = "none" <=> ~hasLead)
+   /\ (hasLead => ins[1].name = d.lead /\ ins[1].stop = d.leadok)
+   /\ (~hasLead => ~d.leadok)
+   /\ (d.rest = "empty" <=> Len(ins) < from)
+   /\ (d.rest = "accepted" <=> (Len(ins) >= from /\ \A i \in from..Len(ins) : ins[i].stop))
+   /\ (d.rest = "mixed" <=> \E i \in from..Len(ins) : ~ins[i].stop)
 \* "universal enough" subsets of the six-gate universe: an entangler and two rotation axes (or one axis and Hadamard)
 Rots == {"RX", "RY", "RZ"}
 Universal(S) == /\ ("CNOT" \in S \/ "CZ" \in S)
